@@ -286,8 +286,10 @@ def run_batch(drv, bat, cases, acc, corrupt):
                 lua = "return " + call_text(d, c[S_], c[P_])
                 it = acc["bad"].get(key)
                 if it is None or len(lua) < len(it[2]["lua"]):
-                    acc["bad"][key] = [sig, (it[1] if it else 0), {"cmd": "lua-run", "lua": lua, "pattern": text(c[P_]), "subject": text(c[S_]),
-                                                                 "expected": e, "observed": a, "parse": ST_NAME[c[ST]]}]
+                    acc["bad"][key] = [sig, (it[1] if it else 0), {
+                        "cmd": "lua-run", "lua": lua, "pattern": text(c[P_]), "subject": text(c[S_]), "expected": e, "observed": a,
+                        "parse": ST_NAME[c[ST]],
+                        "src": PRELUDE + "local s, p = %s, %s\nemit(%s)\n" % (lua_str(text(c[S_])), lua_str(text(c[P_])), call_expr(d))}]
                 acc["bad"][key][1] += 1
 
 
@@ -349,6 +351,7 @@ def run(prop, tier, only=None, corrupt=None, cpu=True):
                reference_divergences_not_determined_by_manual={})
     drv = build_driver()
     scratch()
+    allbad = {}      # signature -> [sig, number of mismatching calls, shortest example]
     for cfg, sim, depth, shards in CONFIGS[tier]:
         if only and cfg not in only:
             continue
@@ -385,8 +388,10 @@ def run(prop, tier, only=None, corrupt=None, cpu=True):
                     o["count"] += count
                     continue
                 tot["bad"] += count
-                for _ in range(count):
-                    rep.violation(sig, replay)
+                it = allbad.get(key)
+                if it is None or len(replay["lua"]) < len(it[2]["lua"]):
+                    allbad[key] = [sig, (it[1] if it else 0), replay]
+                allbad[key][1] += count
         cov["states"] += tot["distinct"]
         cov["transitions"] += tot["generated"]
         cov["configs"].append({"cfg": cfg, "shards": shards, "distinct": tot["distinct"], "generated": tot["generated"], "cases": tot["n"],
@@ -395,6 +400,13 @@ def run(prop, tier, only=None, corrupt=None, cpu=True):
         log("[%s] %s: %d shards, %d cases, %d mismatching calls, %.0fs" % (prop, cfg, shards, tot["n"], tot["bad"], time.time() - t0))
     if dump:
         dump.close()
+    # one replay per signature (Report writes the first 20 distinct ones): panics and hangs first, then by frequency
+    ranked = sorted(allbad.values(), key=lambda x: (x[0]["why"] not in ("go-panic", "hang"), -x[1]))
+    for sig, count, replay in ranked:
+        rep.violation(sig, replay)
+    for sig, count, replay in ranked:
+        for _ in range(count - 1):
+            rep.violation(sig, replay)
     if cpu:
         cpu_clause(rep, drv)
     rep.assumptions += [
@@ -501,6 +513,24 @@ def cpu_clause(rep, drv):
             # the call completed (or failed otherwise) although it needs more ticks than the limit allows
             rep.violation({"fn": "cpu", "why": "not-killed", "case": name}, replay)
     cov["cpu_limited_runs"] = len(lim)
+
+
+def replay(prop, path):
+    """re-run a stored replay: the single call (canonical result compared with the spec's) or the CPU-limited chunk"""
+    d = json.load(open(path))
+    r = d["replay"]
+    drv = build_driver()
+    case = {"id": 0, "src": r["src"], "timeout": 60000}
+    if r.get("cpu"):
+        case["cpu"] = r["cpu"]
+    o = run_lua_cases(drv, [case])[0]
+    if "expected" in r:
+        now = "HANG" if o.get("timeout") else "PANIC" if (o.get("panic") or o.get("crash")) else (
+            o["events"][0][0].get("s") if o.get("events") else json.dumps(o)[:300])
+        print(json.dumps({"sig": d["sig"], "lua": r.get("lua"), "expected": r["expected"], "observed_then": r["observed"], "observed_now": now}, indent=1))
+        return 0 if now == r["expected"] else 1
+    print(json.dumps({"sig": d["sig"], "then": {k: v for k, v in r.items() if k not in ("src", "observed")}, "observed_now": o}, indent=1)[:3000])
+    return 0
 
 
 if __name__ == "__main__":
